@@ -282,8 +282,12 @@ class JsonSchemaParser:
             else:
                 prop_schema = prop
             attname = prop_schema.get('x-var-name') or key
-            if not valid_attr(attname) or attname in attrs or hasattr(dict, attname):
-                attname = self.get_attname(attname, excludes=list(attrs))
+            if (
+                not valid_attr(attname) or attname in attrs or hasattr(self.object_base_cls, attname)
+                or attname.startswith('_')      # underscore-prefixed attributes are never fields
+            ):
+                # also keep clear of the attributes of the base class (dict methods like `items`, `update`)
+                attname = self.get_attname(attname, excludes=list(attrs) + dir(self.object_base_cls))
             alias = None
             if attname != key:
                 alias = key
